@@ -107,7 +107,14 @@ def gen_pattern(rnd):
         i += 1
         r = rnd.random()
         if need_lit_min:
-            parts.append(gen_literal(rnd, need_lit_min + 1, need_lit_min + 4, plain=True))
+            if need_lit_min > 1 and rnd.random() < 0.2:
+                # fewer literal characters follow than the remove-after count asks for
+                parts.append(gen_literal(rnd, 1, need_lit_min - 1, plain=True))
+                feats.add("after-exceeds-literal")
+                if rnd.random() < 0.5:
+                    parts.append("%{message}")
+            else:
+                parts.append(gen_literal(rnd, need_lit_min + 1, need_lit_min + 4, plain=True))
             need_lit_min = 0
             continue
         if in_if and (i > n or r < 0.25):
@@ -146,7 +153,7 @@ def gen_pattern(rnd):
             name = rnd.choice(ATTR_NAMES)
             used.add(name)
             nb = rnd.choice([0, 0, 1, 1, 2, 3])
-            na = rnd.choice([0, 0, 1, 1, 2])
+            na = rnd.choice([0, 0, 1, 1, 2, 3, 5])
             if nb:
                 parts.append(gen_literal(rnd, nb + 1, nb + 3, plain=True))
             form = "?"
